@@ -30,6 +30,7 @@ Clauses(pre, e) ==
         (IF e.res # "ok" THEN {"C14_Refused"} ELSE
           (IF o.m = "set" /\ (~okS \/ MTree(J, o.k) # ValTree(o.v)) THEN {"C14_SetShownInText"} ELSE {}) \cup
           (IF o.m = "set" /\ ~SameVal(e.got, o.v) THEN {"C14_SetGet"} ELSE {}) \cup
+          (IF o.m = "copy" /\ (~okS \/ MTree(J, o.k) # MTree(I, o.v.n)) THEN {"C14_CopyShownInText"} ELSE {}) \cup
           (IF o.m = "del" /\ (o.k \in MKeys(J) \/ o.k \in reported) THEN {"C14_DelGet"} ELSE {}) \cup
           (IF o.m = "get" /\ post # pre THEN {"C14_GetChanges"} ELSE {}) \cup
           (IF okS /\ ~(\A k \in (MKeys(I) \cup MKeys(J)) \ {o.k} : MTree(J, k) = MTree(I, k) /\ (k \in MKeys(I) <=> k \in MKeys(J)))
